@@ -1,18 +1,25 @@
 import Driver.Common
 import Sourmash.Model.HLL
+import Sourmash.Model.MinHash
+import Sourmash.Model.Scaled
+import Sourmash.Model.Murmur
 import Sourmash.Spec.HLL
+import Sourmash.Spec.Kmers
 /-! C17 driver: HyperLogLog registers / merge / save-load.  Model column = `Model/HLL.lean`
-(the thing the theorems of `Theorems/C17.lean` are about); spec column = `Spec/HLL.lean`
-evaluated on the *set* of hashes each slot has received (sorted, so independent of the order the
-case inserted them in). -/
+(the thing the theorems of `Theorems/C17.lean` are about); spec column = `Spec/HLL.lean`:
+every slot carries the register array the specification assigns to the multiset of hashes the
+slot has received so far — `HllSpec.regs`, continued with `HllSpec.accum` over whatever arrives
+later (directly, from a MinHash's mins, from a sequence's k-mers, by merge, through a save/load).
+The two columns use different arithmetic: shifts / `leading_zeros` (model) against `%` / a search
+for the first set bit (spec). -/
 open Driver Hll
 
-/-- what the specification knows about a slot: the parameters it was created with and every hash
-    it has received (directly, by merge, or through a save/load) -/
+/-- what the specification knows about a slot: the parameters it was created with and the
+    max-ρ-per-bucket registers of every hash it has received -/
 structure SpecSlot where
   p : Nat
   k : Nat
-  hs : List Nat
+  regs : Array Nat
 
 structure St where
   m : Array (Option H) := Array.replicate 8 none
@@ -30,17 +37,35 @@ def rleNats (xs : List Nat) : String :=
   | [] => "-"
   | x :: t => go t x 1 ""
 
-def showH (h : H) : String :=
-  s!"p={h.p} q={h.q} k={h.ksize} n={h.regs.size} regs={rleNats (h.regs.toList.map (·.toNat))}"
+def showRegs (p q k : Nat) (regs : Array Nat) : String :=
+  s!"p={p} q={q} k={k} n={regs.size} regs={rleNats regs.toList}"
+
+def hex16 (x : UInt64) : String :=
+  String.ofList ((List.range 16).map (fun i => hexDigit ((x >>> (UInt64.ofNat (60 - 4 * i))).toNat % 16)))
+
+/-- the register digest printed for sketches too large to dump -/
+def digestRegs (p q k : Nat) (regs : Array Nat) : String :=
+  let nz := regs.foldl (fun n r => if r == 0 then n else n + 1) 0
+  let sum := regs.foldl (· + ·) 0
+  let xor := regs.foldl (fun a r => a ^^^ r) 0
+  let fnv := regs.foldl (fun (h : UInt64) r => (h ^^^ UInt64.ofNat r) * 0x00000100000001b3) 0xcbf29ce484222325
+  let n := regs.size
+  s!"p={p} q={q} k={k} n={n} nz={nz} sum={sum} xor={xor} fnv={hex16 fnv} first={showNats (regs.toList.take 8)} last={showNats (regs.toList.drop (n - 8))}"
+
+def hRegs (h : H) : Array Nat := h.regs.map (·.toNat)
+def showH (h : H) : String := showRegs h.p h.q h.ksize (hRegs h)
+def digestH (h : H) : String := digestRegs h.p h.q h.ksize (hRegs h)
+def showSpec (s : SpecSlot) : String := showRegs s.p (64 - s.p) s.k s.regs
+def digestSpec (s : SpecSlot) : String := digestRegs s.p (64 - s.p) s.k s.regs
+
+def nzH (h : H) : Nat := h.regs.foldl (fun n r => if r == 0 then n else n + 1) 0
+def nzSpec (s : SpecSlot) : Nat := s.regs.foldl (fun n r => if r == 0 then n else n + 1) 0
 
 def sortedSet (l : List Nat) : List Nat :=
   let a := l.toArray.qsort (· < ·)
   (a.foldl (fun (acc : List Nat) x => match acc with
     | y :: _ => if x == y then acc else x :: acc
     | [] => [x]) []).reverse
-
-def showSpec (s : SpecSlot) : String :=
-  s!"p={s.p} q={64 - s.p} k={s.k} n={2 ^ s.p} regs={rleNats (HllSpec.regs s.p (sortedSet s.hs)).toList}"
 
 def loadErrName : LoadErr → String
   | .tooShort => "err NifflerError"
@@ -49,6 +74,128 @@ def loadErrName : LoadErr → String
   | .shiftOverflow => "PANIC"
   | .eof => "err IOError"
 
+/-! ### deterministic hash streams of `fill` (the same arithmetic as harness/src/bin/c17.rs) -/
+
+def splitmix64 (i : UInt64) : UInt64 :=
+  let z := i + 0x9E3779B97F4A7C15
+  let z := (z ^^^ (z >>> 30)) * 0xBF58476D1CE4E5B9
+  let z := (z ^^^ (z >>> 27)) * 0x94D049BB133111EB
+  z ^^^ (z >>> 31)
+
+def genHash (mode : String) (p : Nat) (seed i : UInt64) : UInt64 :=
+  let x := splitmix64 (seed + i)
+  let m : UInt64 := (1 : UInt64) <<< UInt64.ofNat p
+  let b := i &&& (m - 1)
+  if mode == "rnd" then x
+  else if mode == "geo" then (x &&& ~~~(m - 1)) ||| b
+  else
+    let q : UInt64 := 64 - UInt64.ofNat p
+    let r : UInt64 := (1 : UInt64) + (x >>> 8) % (q + 1)
+    if r == q + 1 then b
+    else
+      let top : UInt64 := (1 : UInt64) <<< (64 - r)
+      let low := ((x <<< 17) ||| (x >>> 47)) &&& (top - 1) &&& ~~~(m - 1)
+      top ||| low ||| b
+
+def genKeep (seed i : UInt64) (dens : Nat) : Bool :=
+  dens ≥ 256 || decide ((splitmix64 (seed + i) &&& 255).toNat < dens)
+
+def fillHashes (mode : String) (p seed n dens : Nat) : List Nat := Id.run do
+  let mut out : Array Nat := Array.mkEmpty n
+  for i in [0:n] do
+    let iu := UInt64.ofNat i
+    if genKeep (UInt64.ofNat seed) iu dens then
+      out := out.push (genHash mode p (UInt64.ofNat seed) iu).toNat
+  return out.toList
+
+/-! ### MinHash side of `update` -/
+
+/-- model: the mins the transcribed `KmerMinHash` / `KmerMinHashBTree` holds after `add_hash` of
+    every hash in this order (`Model/MinHash.lean`, the model C01 is proved about) -/
+def modelMins (kind : String) (num maxHash : Nat) (track : Bool) (hs : List Nat) : List Nat :=
+  if kind == "tree" then (hs.foldl (fun s h => s.add h 1) (MH.Tree.new num maxHash track)).mins
+  else (hs.foldl (fun s h => s.add h 1) (MH.Vec.new num maxHash track)).mins
+
+/-- spec: a MinHash holds the distinct hashes not above its ceiling, the `num` smallest of them -/
+def specMins (num maxHash : Nat) (hs : List Nat) : List Nat :=
+  if num == 0 && maxHash == 0 then [] else
+  let s := sortedSet hs
+  let s := if maxHash == 0 then s else s.filter (· ≤ maxHash)
+  if num == 0 then s else s.take num
+
+/-- the hashes `add_sequence(seq, force)` feeds: one per valid k-mer (value 0 is skipped by the
+    caller), and whether the call succeeds (`Spec/Kmers.lean`, property C02's statement) -/
+def seqHashes (k : Nat) (force : Bool) (seq : String) : List Nat × Bool :=
+  let bytes := if seq == "-" then [] else seq.toUTF8.toList
+  let evs := Kmers.dnaStream k 42 force bytes
+  (((Kmers.evHashes evs).filter (· != 0)).map (·.toNat), Kmers.evOk evs)
+
+/-! ### state plumbing -/
+
+/-- feed hashes into slot `d`: the model through `add`, the spec through `accum`.  The slots are
+    emptied first so that the register arrays are updated in place. -/
+def feed (st : St) (d : Nat) (hsModel hsSpec : List Nat) : St × Option Nat × Option Nat :=
+  let (m, nzm) := match st.m[d]! with
+    | some h =>
+      let m := st.m.set! d none
+      let h := h.update hsModel
+      let nz := nzH h
+      (m.set! d (some h), some nz)
+    | none => (st.m, none)
+  let (s, nzs) := match st.s[d]! with
+    | some sp =>
+      let s := st.s.set! d none
+      let p := sp.p
+      let sp := { sp with regs := HllSpec.accum p sp.regs hsSpec }
+      let nz := nzSpec sp
+      (s.set! d (some sp), some nz)
+    | none => (st.s, none)
+  ({ m := m, s := s }, nzm, nzs)
+
+def nzResp (pre : String) (r : St × Option Nat × Option Nat) : St × Resp :=
+  match r with
+  | (st, some a, some b) => (st, { model := s!"{pre}nz={a}", spec := s!"{pre}nz={b}" })
+  | (st, some a, none) => (st, { model := s!"{pre}nz={a}" })
+  | (st, none, _) => (st, { model := "none" })
+
+def mergeStep (st : St) (op : String) (d s : Nat) : St × Resp :=
+  match st.m[d]!, st.m[s]! with
+  | some x, some y =>
+    -- the specification: same p and same k merge (register-wise max), anything else is refused
+    -- and changes nothing
+    let compat : Option Bool := match st.s[d]!, st.s[s]! with
+      | some sd, some ss => some (sd.p == ss.p && sd.k == ss.k)
+      | _, _ => none
+    let s' := match compat, st.s[d]!, st.s[s]! with
+      | some true, some sd, some ss => st.s.set! d (some { sd with regs := HllSpec.mergeRegs sd.regs ss.regs })
+      | _, _, _ => st.s
+    let okWord := if op == "refused" then "merged" else "ok"
+    let specCol := match compat with
+      | some true => okWord
+      | some false => if op == "refused" then "refused unchanged" else "-"
+      | none => "-"
+    match x.merge y with
+    | .ok z => ({ m := st.m.set! d (some z), s := s' }, { model := okWord, spec := specCol })
+    | .error e => ({ st with s := s' },
+                   { model := if op == "refused" then "refused unchanged" else "err " ++ e.name, spec := specCol })
+  | _, _ => (st, { model := "none" })
+
+/-- every save/load route: compression, the file system, the C entry points and the chunking of
+    reads and writes are outside the model; all of them must hand `from_reader` exactly the bytes
+    `save_to_writer` produced -/
+def roundTrip (st : St) (d s : Nat) (fmtH : H → String) (fmtS : SpecSlot → String) : St × Resp :=
+  match st.m[s]! with
+  | some x =>
+    let specCol := match st.s[s]! with
+      | some sp => fmtS sp ++ " same=true"
+      | none => "-"
+    match load x.save with
+    | .ok y => ({ m := st.m.set! d (some y), s := st.s.set! d st.s[s]! },
+                { model := fmtH y ++ " same=" ++ toString (decide (y = x)), spec := specCol })
+    | .error e => ({ m := st.m.set! d none, s := st.s.set! d none },
+                   { model := loadErrName e, spec := specCol })
+  | none => (st, { model := "none" })
+
 def stepC17 (st : St) (ws : List String) : St × Resp :=
   let slot (w : String) : Nat := w.toNat!
   match ws with
@@ -56,61 +203,81 @@ def stepC17 (st : St) (ws : List String) : St × Resp :=
   | ["new", d, p, k] =>
     let d := slot d; let p := p.toNat!; let k := k.toNat!
     let inRange := decide (4 ≤ p ∧ p ≤ 18)
-    let sp : Option SpecSlot := if inRange then some { p := p, k := k, hs := [] } else none
+    let sp : Option SpecSlot := if inRange then some { p := p, k := k, regs := HllSpec.regs p [] } else none
     match H.new p k with
     | .ok h => ({ m := st.m.set! d (some h), s := st.s.set! d sp },
                 { model := "ok", spec := if inRange then "ok" else "-" })
     | .error e => ({ m := st.m.set! d none, s := st.s.set! d sp },
                    { model := "err " ++ e.name, spec := if inRange then "ok" else "-" })
-  | ["add", d, hs] =>
-    let d := slot d; let hs := natList hs
+  | ["add", d, hs] => let hs := natList hs; nzResp "" (feed st (slot d) hs hs)
+  | ["addmany", d, hs] => let hs := natList hs; nzResp "" (feed st (slot d) hs hs)
+  | ["addffi", d, hs] => let hs := natList hs; nzResp "" (feed st (slot d) hs hs)
+  | ["fill", d, mode, seed, n, dens] =>
+    let d := slot d
     match st.m[d]! with
     | some h =>
-      let m := st.m.set! d none      -- drop the reference: the register array is updated in place
-      let h := h.addMany hs
-      let s := match st.s[d]! with
-        | some sp => st.s.set! d (some { sp with hs := hs ++ sp.hs })
-        | none => st.s
-      let nz := h.regs.foldl (fun n r => if r == 0 then n else n + 1) 0
-      ({ m := m.set! d (some h), s := s }, { model := s!"nz={nz}" })
+      let hs := fillHashes mode h.p seed.toNat! n.toNat! dens.toNat!
+      nzResp "" (feed st d hs hs)
     | none => (st, { model := "none" })
+  | ["addword", d, w] =>
+    let h := (Murmur.hash64 (unhex w) 42).toNat
+    nzResp "" (feed st (slot d) [h] [h])
+  | ["addseq", d, _api, force, seq] =>
+    let d := slot d
+    match st.m[d]! with
+    | some h =>
+      let (hm, okm) := seqHashes h.ksize (force == "1") seq
+      let (hs, oks) := match st.s[d]! with
+        | some sp => seqHashes sp.k (force == "1") seq
+        | none => ([], true)
+      let r := feed st d hm hs
+      let word (ok : Bool) := if ok then "ok " else "err InvalidDNA "
+      match r with
+      | (st, some a, some b) => (st, { model := s!"{word okm}nz={a}", spec := s!"{word oks}nz={b}" })
+      | (st, some a, none) => (st, { model := s!"{word okm}nz={a}" })
+      | (st, none, _) => (st, { model := "none" })
+    | none => (st, { model := "none" })
+  | ["upd", d, _api, kind, num, scaled, track, hs] =>
+    let hs := natList hs
+    let num := num.toNat!
+    let mx := Scaled.maxHashForScaled scaled.toNat!
+    let mm := modelMins kind num mx (track == "1") hs
+    let sm := specMins num mx hs
+    match feed st (slot d) mm sm with
+    | (st, some a, some b) => (st, { model := s!"mins={mm.length} nz={a}", spec := s!"mins={sm.length} nz={b}" })
+    | (st, some a, none) => (st, { model := s!"mins={mm.length} nz={a}" })
+    | (st, none, _) => (st, { model := "none" })
+  | ["ashll", d, num, scaled, hs] =>
+    -- `as_hll`: `with_error_rate(0.01, ksize)` is precision 14; the MinHash of the harness has k = 21
+    let d := slot d
+    let hs := natList hs
+    let num := num.toNat!
+    let mx := Scaled.maxHashForScaled scaled.toNat!
+    let h := (H.empty 14 21).update (modelMins "vec" num mx false hs)
+    let sp : SpecSlot := { p := 14, k := 21, regs := HllSpec.regs 14 (specMins num mx hs) }
+    ({ m := st.m.set! d (some h), s := st.s.set! d (some sp) }, { model := digestH h, spec := digestSpec sp })
   | ["show", d] =>
     let d := slot d
     match st.m[d]! with
     | some h => (st, { model := showH h, spec := match st.s[d]! with | some sp => showSpec sp | none => "-" })
     | none => (st, { model := "none" })
+  | ["dg", d] =>
+    let d := slot d
+    match st.m[d]! with
+    | some h => (st, { model := digestH h, spec := match st.s[d]! with | some sp => digestSpec sp | none => "-" })
+    | none => (st, { model := "none" })
   | ["eq", a, b] =>
     let a := slot a; let b := slot b
     match st.m[a]!, st.m[b]! with
     | some x, some y =>
+      -- sketches are equal exactly when precision, k and every register agree
       let spec := match st.s[a]!, st.s[b]! with
-        | some sa, some sb =>
-          if sa.p == sb.p && sa.k == sb.k && sortedSet sa.hs == sortedSet sb.hs then "true" else "-"
+        | some sa, some sb => toString (sa.p == sb.p && sa.k == sb.k && sa.regs == sb.regs)
         | _, _ => "-"
       (st, { model := toString (decide (x = y)), spec := spec })
     | _, _ => (st, { model := "none" })
   | [op, d, s] =>
-    if op == "merge" || op == "refused" then
-      let d := slot d; let s := slot s
-      match st.m[d]!, st.m[s]! with
-      | some x, some y =>
-        -- the specification: same p and same k merge, anything else is refused and changes nothing
-        let compat : Option Bool := match st.s[d]!, st.s[s]! with
-          | some sd, some ss => some (sd.p == ss.p && sd.k == ss.k)
-          | _, _ => none
-        let s' := match compat, st.s[d]!, st.s[s]! with
-          | some true, some sd, some ss => st.s.set! d (some { sd with hs := ss.hs ++ sd.hs })
-          | _, _, _ => st.s
-        let specCol := match compat with
-          | some true => if op == "merge" then "ok" else "merged"
-          | some false => if op == "merge" then "-" else "refused unchanged"
-          | none => "-"
-        match x.merge y with
-        | .ok z => ({ m := st.m.set! d (some z), s := s' },
-                    { model := if op == "merge" then "ok" else "merged", spec := specCol })
-        | .error e => ({ st with s := s' },
-                       { model := if op == "merge" then "err " ++ e.name else "refused unchanged", spec := specCol })
-      | _, _ => (st, { model := "none" })
+    if op == "merge" || op == "refused" || op == "mergeffi" then mergeStep st op (slot d) (slot s)
     else if op == "loadraw" then
       let d := slot d
       match load (unhex s) with
@@ -126,21 +293,8 @@ def stepC17 (st : St) (ws : List String) : St × Resp :=
       let b := h.save
       (st, { model := s!"hdr={hex (b.take 7)} len={b.length} body={rleNats ((b.drop 7).map (·.toNat))}" })
     | none => (st, { model := "none" })
-  | ["rt", d, s, _kind] =>
-    -- plain / gz / file / ffi: compression and the file system are outside the model; all of them
-    -- must hand `from_reader` the bytes `save_to_writer` produced
-    let d := slot d; let s := slot s
-    match st.m[s]! with
-    | some x =>
-      let specCol := match st.s[s]! with
-        | some sp => showSpec sp ++ " same=true"
-        | none => "-"
-      match load x.save with
-      | .ok y => ({ m := st.m.set! d (some y), s := st.s.set! d st.s[s]! },
-                  { model := showH y ++ " same=" ++ toString (decide (y = x)), spec := specCol })
-      | .error e => ({ m := st.m.set! d none, s := st.s.set! d none },
-                     { model := loadErrName e, spec := specCol })
-    | none => (st, { model := "none" })
+  | ["rt", d, s, _route] => roundTrip st (slot d) (slot s) showH showSpec
+  | ["rtd", d, s, _route] => roundTrip st (slot d) (slot s) digestH digestSpec
   | _ => (st, { model := "bad-op" })
 
 def main : IO Unit := Driver.run ({} : St) stepC17
